@@ -29,3 +29,27 @@ CONTRACTS = [
         ensures=["endswith(filename, result)"],
     ),
 ]
+
+
+# --------------------------------------------------------------------------------------------------------------
+# get_module_contents: every symbol it collects is keyed '<module>.<submodule>.<name>' where <name> is the name the collected
+# definition HAS in its own file (node.name).  emit_file_on_hierarchy looks that last component up among the definitions of the
+# target file to decide that "the symbol is already there" -- for a package that is not installed below site-packages the
+# target file is the source file itself, and that test is all that keeps exmod from rewriting it (DESIGN.md §10.8).
+def structural(find_def):
+    import ast
+
+    f = find_def("cdd.compound.exmod_utils", "get_module_contents")
+    ok, detail = None, "get_module_contents not found"
+    if f is not None:
+        comps = [n.value for n in ast.walk(f) if isinstance(n, (ast.Assign, ast.AnnAssign)) and isinstance(n.value, ast.DictComp)
+                 and ast.unparse(n.targets[0] if isinstance(n, ast.Assign) else n.target) == "res"]
+        ok, detail = None, "the dict comprehension bound to `res` was not found"
+        if len(comps) == 1:
+            k, v = comps[0].key, comps[0].value
+            kw = {x.arg: x.value for x in k.keywords} if isinstance(k, ast.Call) and isinstance(k.func, ast.Attribute) and k.func.attr == "format" else {}
+            ok = isinstance(v, ast.Name) and "node_name" in kw and ast.unparse(kw["node_name"]) == "%s.name" % v.id and isinstance(k.func.value, ast.Constant) \
+                and str(k.func.value.value).endswith(".{node_name}")
+            detail = ("every collected definition is keyed by its own name: key = '...{node_name}'.format(..., node_name=%s.name), value = %s" % (v.id, v.id)) if ok else \
+                "the key of a collected definition no longer ends in the definition's own name (node_name=%s)" % (ast.unparse(kw["node_name"]) if "node_name" in kw else "?")
+    return [("get_module_contents/symbol-keyed-by-its-own-name", ok, detail)]
